@@ -97,12 +97,11 @@ def diff_class(a, b):
     return 'value'
 
 
-def run_case(ctx, L, i, version=2):
+def _run_case_body(ctx, L, i, version=2, scope=None):
     rng = ctx.rng('C02' if version == 2 else 'C13', i)
     big = ctx.tier != 'quick' and i % 50 == 0
     doc = B.writer_doc(rng, ascii_only=(version == 1), big=big)
     info = dict(index=i, version=version)
-    scope = LedgerScope(L).__enter__()
     cif = None
     try:
         cif = B.build_cif(L, doc)
@@ -133,10 +132,18 @@ def run_case(ctx, L, i, version=2):
     finally:
         if cif:
             L.destroy(cif)
-    for suffix, detail in scope.finish():
-        ctx.violation(suffix, detail, info)
     ctx.drain_events(info)
 
+
+
+def run_case(ctx, L, i, version=2):
+    """the ledger is audited on every path out of the case, refusals included"""
+    scope = LedgerScope(L).__enter__()
+    try:
+        _run_case_body(ctx, L, i, version, scope)
+    finally:
+        for suffix, detail in scope.finish():
+            ctx.violation(suffix, detail, dict(index=i))
 
 def worker(ctx):
     L = ctx.L
